@@ -424,9 +424,15 @@ def r10(ctx, facts):
     c15_r10(ctx, facts)
 
 
+def r11(ctx, facts):
+    """shared with C04 (stated there): the replica lists the first attempt is picked from are the walkers' own, whether precomputed or not"""
+    from .c04 import r3 as c04_r3
+    c04_r3(ctx, facts)
+
+
 def check(ctx):
     facts = inline_view(ctx.facts("default"))
-    for fn in (r1, r2, r3, r4, r5, r6, r7, r8, r9, r10):
+    for fn in (r1, r2, r3, r4, r5, r6, r7, r8, r9, r10, r11):
         try:
             fn(ctx, facts)
         except AnchorLost as ex:
